@@ -39,7 +39,9 @@ inductive Act
   | restart                  -- authority restart: the in-memory map is lost (only when nobody is mid-operation)
   deriving Repr, DecidableEq
 
-def stepW (s : S) (i : Nat) (w : W) : S :=
+/-- `known σ`: the thread exists from before the run (its frames are not part of this log; the
+first append numbers from the log = 0 here, as after a restart) -/
+def stepW (locked : Bool) (known : Nat → Bool) (s : S) (i : Nat) (w : W) : S :=
   match w.prog with
   | [] => s
   | .append σ :: rest =>
@@ -49,31 +51,53 @@ def stepW (s : S) (i : Nat) (w : W) : S :=
       | none => setW { s with lock := some i } i { w with pc := 1 }
       | some _ => s
     | 1 => -- choose the seq (map, else last seq in the log + 1) and append to the log
-      let k := match lookup s.next σ with | some k => k | none => count s.log σ
-      setW { s with log := s.log ++ [(σ, k)] } i { w with pc := 2, chosen := k }
+      match lookup s.next σ with
+      | some k => setW { s with log := s.log ++ [(σ, k)] } i { w with pc := 2, chosen := k }
+      | none =>
+        if count s.log σ = 0 && !known σ then
+          -- `load_next_seq_for` finds no frame: the call fails, nothing is written
+          setW { s with lock := none } i { prog := rest, pc := 0, chosen := 0 }
+        else
+          let k := count s.log σ
+          setW { s with log := s.log ++ [(σ, k)] } i { w with pc := 2, chosen := k }
     | 2 => -- bump
       setW { s with next := setNext s.next σ (w.chosen + 1) } i { w with pc := 3 }
     | _ => -- unlock, operation done
       setW { s with lock := none } i { prog := rest, pc := 0, chosen := 0 }
   | .create σ :: rest =>
     match w.pc with
-    | 0 => setW { s with log := s.log ++ [(σ, 0)] } i { w with pc := 1 }          -- creation frame, no lock
-    | 1 => setW { s with next := setNext s.next σ 1 } i { w with pc := 2 }         -- map := 1
-    | 2 => setW { s with log := s.log ++ [(σ, 1)] } i { w with pc := 3 }          -- lineage frame, hard-coded seq 1
-    | _ => setW { s with next := setNext s.next σ 2 } i { prog := rest, pc := 0, chosen := 0 }
+    | 0 =>
+      if locked then
+        match s.lock with
+        | none => setW { s with lock := some i } i { w with pc := 1 }              -- take the seq lock first
+        | some _ => s
+      else setW s i { w with pc := 1 }
+    | 1 => setW { s with log := s.log ++ [(σ, 0)] } i { w with pc := 2 }          -- creation frame
+    | 2 =>                                                                         -- map := 1
+      if locked then setW { s with next := setNext s.next σ 1 } i { w with pc := 3 }
+      else match s.lock with
+        | none => setW { s with next := setNext s.next σ 1 } i { w with pc := 3 }
+        | some _ => s                                                              -- brief lock, blocked while held
+    | 3 => setW { s with log := s.log ++ [(σ, 1)] } i { w with pc := 4 }          -- lineage frame, hard-coded seq 1
+    | _ =>                                                                         -- map := 2 (and unlock)
+      if locked then setW { s with next := setNext s.next σ 2, lock := none } i { prog := rest, pc := 0, chosen := 0 }
+      else match s.lock with
+        | none => setW { s with next := setNext s.next σ 2 } i { prog := rest, pc := 0, chosen := 0 }
+        | some _ => s
 
 def idle (s : S) : Bool := s.lock.isNone && s.ws.all (fun w => w.pc == 0)
 
-def act (s : S) : Act → S
+def act (locked : Bool) (known : Nat → Bool) (s : S) : Act → S
   | .step i => match s.ws[i]? with
-    | some w => stepW s i w
+    | some w => stepW locked known s i w
     | none => s
   | .restart => if idle s then { s with next := [] } else s
 
 def init (progs : List (List Op)) : S :=
   { log := [], next := [], lock := none, ws := progs.map (fun p => { prog := p, pc := 0, chosen := 0 }) }
 
-def run (progs : List (List Op)) (sched : List Act) : S := sched.foldl act (init progs)
+def run (locked : Bool) (known : Nat → Bool) (progs : List (List Op)) (sched : List Act) : S :=
+  sched.foldl (act locked known) (init progs)
 
 /-- every stream's frames carry seq 0,1,2,… in file order (what `validate_event_order` accepts) -/
 def validLog (log : List (Nat × Nat)) : Bool :=
@@ -87,14 +111,9 @@ def validLog (log : List (Nat × Nat)) : Bool :=
 def created (progs : List (List Op)) : List Nat :=
   progs.flatten.filterMap (fun o => match o with | .create σ => some σ | _ => none)
 
-/-- nobody addresses a thread that a concurrent `create` is still producing: a created stream is
-created once, is appended to only by the creating writer, and only after the creation (a client
-learns the new thread id when the creating call returns). Streams that are appended to without
-being created model threads that exist already (numbering from the log, as after a restart). -/
-def NoEarlyAddress (progs : List (List Op)) : Prop :=
-  (created progs).Nodup ∧
-  ∀ (i j : Nat) (p q : List Op) (σ : Nat), progs[i]? = some p → progs[j]? = some q → Op.create σ ∈ p →
-    (i ≠ j → Op.append σ ∉ q) ∧
-    (∀ ops1 ops2, p = ops1 ++ Op.create σ :: ops2 → Op.append σ ∉ ops1)
+/-- thread ids are fresh: a stream is created at most once in a run, and a created stream is not
+one that existed before the run -/
+def FreshIds (known : Nat → Bool) (progs : List (List Op)) : Prop :=
+  (created progs).Nodup ∧ ∀ σ ∈ created progs, known σ = false
 
 end Rip.StoreLTS
